@@ -8,7 +8,7 @@ from callgraph import effect_class
 EXPLANATION = ("R14.1 every destructive file-system effect (remove_file, rename, File::create, write-opens, symlink) takes a path whose provenance is "
                "FileSpec::as_pathbuf, an element of a *filtered* listing, the path stored in the active state, the configured symlink, the error-channel "
                "file or the specfile parameter (never an element of the unfiltered directory listing, never a literal); R14.2 the family predicate has "
-               "all documented conjuncts, each decided as a table of the filter closure: regular file; file name starts with the fixed part; suffix = "
+               "all documented conjuncts, each decided on whole-function tables of the listing and of filter_files (per listed element: kept iff every conjunct holds; closures, named helpers or a loop give the same rows): regular file; file name starts with the fixed part; suffix = "
                "extension compared for equality with the requested suffix; the stem continues after the fixed part with the `_` separator; the "
                "non-empty text up to the first `.` is handed to the infix predicate; the infix predicates evaluated on sample infixes; R14.3 "
                "destructive effects are confined to the file-log-writer state modules (plus the two listed append/create_new exceptions).")
